@@ -50,6 +50,21 @@ def r_operators(chk, P, tier):
         opp = [x for x in names if d in OPPOSITE and OPPOSITE[d] in x and x not in ("signed_duration_since",) and not (d in x)]
         ok = bool(same) and not opp and own == 0
         chk.expect(ok, n, "%s: delegates to %s (same direction %s, opposite %s), own arithmetic asserts %d" % (n, sorted(names), same, opp, own), loc=P.loc(n))
+        # operand order: the left operand of the operator is the receiver / first argument of the function it delegates to
+        if ok and f["mir"]["argc"] == 2:
+            from rules import tag_locals
+            tags, of = tag_locals(P, n, lambda a, b: None, arg_tag=lambda i: "lhs" if i == 1 else "rhs")
+            for b in f["mir"]["blocks"]:
+                t = b["t"]
+                if b.get("cleanup") or t["k"] != "call" or len(t["args"]) < 2:
+                    continue
+                r = t["callee"].get("resolved") or t["callee"].get("def") or ""
+                short = r.split("::{")[0].split("::")[-1]
+                if short not in same or not (P.has(r) or r.startswith("offset::")):
+                    continue
+                a0, a1 = of(t["args"][0]), of(t["args"][1])
+                swapped = "rhs" in a0 and "lhs" not in a0 and "lhs" in a1 and "rhs" not in a1
+                chk.expect(not swapped, n + " operand order", "%s passes its right operand as the receiver of %s and its left operand as the argument (a - b computed as b - a)" % (n, short), loc=P.loc(n, t.get("ln")))
 
 
 def single(P, fn):
